@@ -301,6 +301,7 @@ class Interp:
         self.nlife = Counter()
         self.ndirect = Counter()
         self.in_process = self.clear_in_reap = False
+        self.terminal = False
         self.nested_frame = None
         self.procs_changed_in_reap = False
         self.flip, self.emitted_now = None, 0
@@ -339,7 +340,34 @@ class Interp:
             key = f'dl:{label}:{rest[0]}'
             n = self.ndirect[key]
             self.ndirect[key] += 1
-            if self.sc.get('scripts', {}).get(f'{key}:{n}'):
+            dscript = self.sc.get('scripts', {}).get(f'{key}:{n}')
+            if dscript and dscript[0][0] == 'process_now' and getattr(
+                    self, 'ghosts', None):
+                dscript = None      # (an out-of-premise request is pending)
+            if dscript and dscript[0][0] == 'process_now':
+                # a whole frame is run from the callback, in the middle of
+                # the operation: whatever state the entity is in, process()
+                # completes (the model does not follow the world further)
+                self.terminal = True
+                self.no_scripts = True
+                self.trace.add('frame_from_direct_callback')
+                self.probes['frame_run_by_a_direct_lifecycle_callback'] += 1
+                self.faults['nested_frame_inside_an_operation'] += 1
+                self.cur_dt = dscript[0][1]
+                try:
+                    with kernel.budget(OP_BUDGET):
+                        self.w.process(self.cur_dt)
+                except (Violation, Boom, Crash):
+                    raise
+                except SimHang as e:
+                    self.fail('C05', 'hang', f'process() from {label}.'
+                              f'{rest[0]} during {self.top_op}: {e}')
+                except Exception as e:
+                    self.fail('C05', 'process_raised', f'process() run by '
+                              f'{label}.{rest[0]} in the middle of '
+                              f'{self.top_op}_component raised '
+                              f'{type(e).__name__}: {e}')
+            elif dscript:
                 self.flip = sum(1 for d, _ in self.log[self.top_start:]
                                 if d == 0)
                 self.probes['disabled_mid_operation'] += 1
@@ -608,7 +636,15 @@ class Interp:
         if not nested and not self.depth:
             self.top_op, self.top_start = name, start
             self.flip, self.emitted_now = None, 0
-        res = fn(op, start)
+        try:
+            res = fn(op, start)
+        except Violation as v:
+            if self.terminal and v.kind != 'process_raised' \
+                    and v.kind != 'hang':
+                return          # (the model stopped following the world)
+            raise
+        if self.terminal:
+            return
         if res == 'skip':
             self.stats['skipped'] += 1
             self.trace.add('skip')
@@ -1828,6 +1864,8 @@ def execute(scenario, prop, tolerate=frozenset()):
         it.sweep()
         for idx, op in enumerate(scenario['ops']):
             it.exec_op(op)
+            if it.terminal:
+                break
     except Violation as v:
         violation = v.to_json()
         violation['op'] = idx
@@ -2360,6 +2398,13 @@ def generate(prop, run_seed, tier='quick', tolerate=frozenset()):
                 # the interrupted operation still owes is postponed
                 body = [['disable']] + body if r < .65 else body + [['disable']]
             scripts[f'lc:c{i}:{k}'] = body
+    if prop == 'C05' and crng.random() < .06:
+        # the direct on_remove of a replaced / removed component runs a
+        # frame (terminal for the model)
+        for i in rng.sample(range(len(cfg['insts'])),
+                            min(len(cfg['insts']), rng.randint(2, 5))):
+            scripts[f'dl:c{i}:on_remove:{rng.choice([0, 0, 1])}'] = [
+                ['process_now', 1]]
     if crng.random() < {'C02': .3, 'C01': .05}.get(prop, 0):
         for i in rng.sample(range(len(cfg['insts'])),
                             min(len(cfg['insts']), rng.randint(1, 4))):
